@@ -307,4 +307,88 @@ def hasForbidden (s : String) : Bool := s.toList.any xmlForbidden
 def hasAttrWs (s : String) : Bool := s.toList.any fun ch => ch == '\t' || ch == '\n' || ch == '\r'
 def hasCR (s : String) : Bool := s.toList.any (· == '\r')
 
+def attrPlain (s : String) : Bool := !hasForbidden s && !hasAttrWs s
+def textPlain (s : String) : Bool := !hasForbidden s && !hasCR s
+
+/-- XML 1.0 §2.11 line-end handling: CR LF and a lone CR become LF (flag: the previous character was CR) -/
+def normEol : Bool → List Char → List Char
+  | _, [] => []
+  | prevCR, ch :: r =>
+    if ch = '\r' then '\n' :: normEol true r
+    else if ch = '\n' ∧ prevCR = true then normEol false r
+    else ch :: normEol false r
+
+/-- §3.3.3 attribute-value normalisation of what is left: tab and LF become a blank -/
+def normAttr (s : String) : String :=
+  String.ofList ((normEol false s.toList).map fun ch => if ch = '\t' ∨ ch = '\n' then ' ' else ch)
+
+def normText (s : String) : String := String.ofList (normEol false s.toList)
+
+def normAttrs : List (String × String) → Option (List (String × String))
+  | [] => some []
+  | (k, v) :: r =>
+    if hasForbidden v then none else
+    match normAttrs r with
+    | some r' => some ((k, normAttr v) :: r')
+    | none => none
+
+mutual
+/-- what a conforming XML 1.0 processor reads from quick-xml's output, where tab, CR, LF and forbidden
+    characters are written as they are: `none` = not well-formed -/
+def conformView : Tree → Option Tree
+  | .txt s => if hasForbidden s then none else some (.txt (normText s))
+  | .elem n a k =>
+    match normAttrs a, conformViews k with
+    | some a', some k' => some (.elem n a' k')
+    | _, _ => none
+def conformViews : List Tree → Option (List Tree)
+  | [] => some []
+  | t :: r =>
+    match conformView t, conformViews r with
+    | some t', some r' => some (t' :: r')
+    | _, _ => none
+end
+
+/-! ## guard of the three `indep-reader` findings, structurally -/
+
+def optPlain (s : Option String) : Bool :=
+  match s with
+  | none => true
+  | some v => attrPlain v
+
+mutual
+def pvXml : PV → Bool
+  | .str s => textPlain s
+  | .arr xs => pvsXml xs
+  | .dict kvs => kvsXml kvs
+  | _ => true
+def pvsXml : PVs → Bool
+  | .nil => true
+  | .cons v r => pvXml v && pvsXml r
+def kvsXml : KVs → Bool
+  | .nil => true
+  | .cons k v r => textPlain k && pvXml v && kvsXml r
+end
+
+def locXml (l : List Dimension) : Bool := l.all fun d => attrPlain d.name
+
+def ruleXml (r : Rule) : Bool :=
+  optPlain r.name && r.conditionSets.all (fun s => s.conditions.all fun x => attrPlain x.name) &&
+  r.substitutions.all fun s => attrPlain s.name && attrPlain s.withName
+
+def sourceXml (s : Source) : Bool :=
+  optPlain s.familyname && optPlain s.stylename && optPlain s.name && attrPlain s.filename && optPlain s.layer &&
+  locXml s.location
+
+def instanceXml (i : Instance) : Bool :=
+  optPlain i.familyname && optPlain i.stylename && optPlain i.name && optPlain i.filename &&
+  optPlain i.postscriptfontname && optPlain i.stylemapfamilyname && optPlain i.stylemapstylename &&
+  locXml i.location && kvsXml i.lib
+
+/-- no attribute string holds tab/CR/LF, no lib string or key holds CR, no string holds a character XML
+    forbids: the complement of the findings `attr-ws`, `text-cr`, `forbidden-char` -/
+def XmlSafe (d : Doc) : Bool :=
+  d.axes.all (fun a => attrPlain a.name && attrPlain a.tag) && d.rules.rules.all ruleXml &&
+  d.sources.all sourceXml && d.instances.all instanceXml && kvsXml d.lib
+
 end C18.Spec
